@@ -1,0 +1,54 @@
+//go:build verif
+// +build verif
+
+package btree
+
+import (
+	"fmt"
+	"strings"
+)
+
+// VerifDump prints the node structure of the tree (items, children, indices of every node) as a term of the
+// Coq type `option (node Z)` of /verif/coq/model/C07_BTree.v. Verification hook for property C07; add-only.
+func (t *BTree) VerifDump(item func(Item) int64) string {
+	if t.root == nil {
+		return "None"
+	}
+	var sb strings.Builder
+	sb.WriteString("(Some ")
+	t.root.verifDump(&sb, item)
+	sb.WriteString(")")
+	return sb.String()
+}
+
+func verifZ(v int64) string {
+	if v < 0 {
+		return fmt.Sprintf("(%d)", v)
+	}
+	return fmt.Sprintf("%d", v)
+}
+
+func (n *node) verifDump(sb *strings.Builder, item func(Item) int64) {
+	sb.WriteString("(Node [")
+	for i, it := range n.items {
+		if i > 0 {
+			sb.WriteString("; ")
+		}
+		sb.WriteString(verifZ(item(it)))
+	}
+	sb.WriteString("] [")
+	for i, c := range n.children {
+		if i > 0 {
+			sb.WriteString("; ")
+		}
+		c.verifDump(sb, item)
+	}
+	sb.WriteString("] [")
+	for i, v := range n.indices {
+		if i > 0 {
+			sb.WriteString("; ")
+		}
+		sb.WriteString(verifZ(int64(v)))
+	}
+	sb.WriteString("])")
+}
